@@ -154,6 +154,19 @@ var realisers = []realiser{
 		}
 		return &gtab.Gpos2_2{Cov: covSet(spread(n)), Class1: classdef.Table{}, Class2: classdef.Table{}, Adjust: rows}
 	}},
+	{"gpos3_1", true, 3, func(s int) gtab.Subtable { // 6 + 4n + 6*2n + (4+2n) = 10 + 18n
+		n := (s - 10) / 18
+		if (s-10)%18 != 0 || n < 1 || 6+16*n > 65535 {
+			return nil
+		}
+		rec := make([]gtab.EntryExitRecord, n)
+		for i := range rec {
+			rec[i] = gtab.EntryExitRecord{Entry: anch(true, i%50), Exit: anch(true, i%70)}
+		}
+		return &gtab.Gpos3_1{Cov: covTable(spread(n)), Records: rec}
+	}},
+	{"gpos4_1", true, 4, func(s int) gtab.Subtable { return markBase(s, false) }},
+	{"gpos6_1", true, 6, func(s int) gtab.Subtable { return markBase(s, true) }},
 	{"gpos7_1", true, 7, func(s int) gtab.Subtable { return ctx1(s) }},
 	{"gpos8_3", true, 8, func(s int) gtab.Subtable { return chain3(s) }},
 }
@@ -345,14 +358,21 @@ type Shape struct {
 	M   int    `json:"m"`
 	C   int    `json:"c"`
 	V   int    `json:"v"`
-	T   string `json:"t,omitempty"`   // k = "off": the subtable format, e.g. "gsub5_2"
+	T   string `json:"t,omitempty"`   // k = "off" / "leaf": the subtable format, e.g. "gsub5_2"
 	Big string `json:"big,omitempty"` // k = "off": the component that is made >= 64 KiB
+	// k = "leaf": the scalar leaf Field of the middle record is Val, the other leaves are non-zero (Oth = 1) or zero
+	Field string `json:"field,omitempty"`
+	Val   int    `json:"val"`
+	Oth   int    `json:"oth"`
 }
 
 // buildShape returns the lookup type and the subtable of a shape.
 func buildShape(sh Shape, gpos bool) (int, gtab.Subtable, error) {
 	if sh.K == "off" {
 		return buildOff(sh.T, sh.Big)
+	}
+	if sh.K == "leaf" {
+		return buildLeaf(sh, gpos)
 	}
 	if strings.HasSuffix(sh.K, "z") {
 		base := sh
@@ -919,4 +939,156 @@ func buildOff(t, big string) (int, gtab.Subtable, error) {
 		return lt, &gtab.Gpos6_1{Mark1Cov: covTable(spread(nm)), Mark2Cov: covTable(spread(nb)), Mark1Array: marks, Mark2Array: arr}, nil
 	}
 	return 0, nil, bad
+}
+
+// markBase: 12 + markCov(4+2) + baseCov(4+2n) + markArray(2+4+6) + baseArray(2 + 2n + 6n) = 36 + 10n
+func markBase(s int, mkmk bool) gtab.Subtable {
+	n := (s - 36) / 10
+	if (s-36)%10 != 0 || n < 1 || 2+8*n > 65535 {
+		return nil
+	}
+	marks := []markarray.Record{{Class: 0, Table: anch(true, 1)}}
+	arr := make([][]anchor.Table, n)
+	for i := range arr {
+		arr[i] = []anchor.Table{anch(true, i%90)}
+	}
+	if mkmk {
+		return &gtab.Gpos6_1{Mark1Cov: covTable([]glyph.ID{1}), Mark2Cov: covTable(spread(n)), Mark1Array: marks, Mark2Array: arr}
+	}
+	return &gtab.Gpos4_1{MarkCov: covTable([]glyph.ID{1}), BaseCov: covTable(spread(n)), MarkArray: marks, BaseArray: arr}
+}
+
+// realiseNear returns a realiser of lookup type t and the smallest size >= s it can make.
+func realiseNear(rng *rand.Rand, gpos bool, t, s int) (string, int, error) {
+	var cand []int
+	for i, r := range realisers {
+		if r.gpos == gpos && r.ltype == t {
+			cand = append(cand, i)
+		}
+	}
+	rng.Shuffle(len(cand), func(a, b int) { cand[a], cand[b] = cand[b], cand[a] })
+	for d := 0; d < 60; d += 2 {
+		for _, c := range cand {
+			if realisers[c].make(s+d) != nil {
+				return realisers[c].name, s + d, nil
+			}
+		}
+	}
+	return "", 0, fmt.Errorf("lookup type %d (gpos=%v) cannot make about %d bytes", t, gpos, s)
+}
+
+// ---- scalar leaves ------------------------------------------------------------------------
+
+// buildLeaf builds a small subtable of format sh.T whose leaf sh.Field (middle record) has the value sh.Val.
+func buildLeaf(sh Shape, gpos bool) (int, gtab.Subtable, error) {
+	used := false
+	lv := func(name string, base int) int {
+		if name == sh.Field {
+			used = true
+			return sh.Val
+		}
+		if sh.Oth == 0 {
+			return 0
+		}
+		return base
+	}
+	// other records: always non-zero
+	g3 := covTable([]glyph.ID{10, 13, 16})
+	gid := func(name string, base int) glyph.ID { return glyph.ID(uint16(lv(name, base))) }
+	u := func(name string, base int) uint16 { return uint16(lv(name, base)) }
+	fu := func(name string, base int) funit.Int16 { return funit.Int16(lv(name, base)) }
+	vrec := func(pre string) *gtab.GposValueRecord {
+		return &gtab.GposValueRecord{XPlacement: fu(pre+"XPlacement", 11), YPlacement: fu(pre+"YPlacement", -12),
+			XAdvance: fu(pre+"XAdvance", 13), YAdvance: fu(pre+"YAdvance", -14),
+			XPlacementDevOffs: u(pre+"XPlaDevice", 15), YPlacementDevOffs: u(pre+"YPlaDevice", 16),
+			XAdvanceDevOffs: u(pre+"XAdvDevice", 17), YAdvanceDevOffs: u(pre+"YAdvDevice", 18)}
+	}
+	act := func() []gtab.SeqLookup {
+		return []gtab.SeqLookup{{SequenceIndex: 1, LookupListIndex: 1},
+			{SequenceIndex: u("sequenceIndex", 2), LookupListIndex: gtab.LookupIndex(u("lookupListIndex", 1))}, {SequenceIndex: 0, LookupListIndex: 0}}
+	}
+	ctxT := func(base int) int {
+		if gpos {
+			return base + 2
+		}
+		return base
+	}
+	var lt int
+	var st gtab.Subtable
+	switch sh.T {
+	case "gsub1_1":
+		lt, st = 1, &gtab.Gsub1_1{Cov: covSet([]glyph.ID{10, 13, 16}), Delta: gid("deltaGlyphID", 5)}
+	case "gsub1_2":
+		lt, st = 1, &gtab.Gsub1_2{Cov: g3, SubstituteGlyphIDs: []glyph.ID{21, gid("substituteGlyphID", 22), 23}}
+	case "gsub2_1":
+		lt, st = 2, &gtab.Gsub2_1{Cov: g3, Repl: [][]glyph.ID{{21}, {22, gid("sequenceGlyph", 23), 24}, {25}}}
+	case "gsub3_1":
+		lt, st = 3, &gtab.Gsub3_1{Cov: g3, Alternates: [][]glyph.ID{{21}, {22, gid("alternateGlyph", 23), 24}, {25}}}
+	case "gsub4_1":
+		lt, st = 4, &gtab.Gsub4_1{Cov: g3, Repl: [][]gtab.Ligature{{{In: []glyph.ID{30}, Out: 31}},
+			{{In: []glyph.ID{32, gid("componentGlyph", 33), 34}, Out: gid("ligatureGlyph", 35)}}, {{In: []glyph.ID{36}, Out: 37}}}}
+	case "gsub8_1":
+		lt, st = 8, &gtab.Gsub8_1{Input: g3, Backtrack: []coverage.Table{covTable([]glyph.ID{40})},
+			SubstituteGlyphIDs: []glyph.ID{21, gid("substituteGlyphID", 22), 23}}
+	case "ctx1":
+		lt, st = ctxT(5), &gtab.SeqContext1{Cov: covTable([]glyph.ID{10}), Rules: [][]*gtab.SeqRule{{
+			{Input: []glyph.ID{41, gid("inputGlyph", 42), 43}, Actions: act()}}}}
+	case "ctx2":
+		lt, st = ctxT(5), &gtab.SeqContext2{Cov: covTable([]glyph.ID{10}), Input: classdef.Table{10: 1, 11: 2},
+			Rules: [][]*gtab.ClassSeqRule{nil, {{Input: []uint16{1, u("inputClass", 2), 1}, Actions: act()}}}}
+	case "ctx3":
+		lt, st = ctxT(5), &gtab.SeqContext3{Input: []coverage.Set{covSet([]glyph.ID{10}), covSet([]glyph.ID{11, 12})}, Actions: act()}
+	case "chain1":
+		lt, st = ctxT(6), &gtab.ChainedSeqContext1{Cov: covTable([]glyph.ID{10}), Rules: [][]*gtab.ChainedSeqRule{{
+			{Backtrack: []glyph.ID{51, gid("backtrackGlyph", 52), 53}, Input: []glyph.ID{41, gid("inputGlyph", 42), 43},
+				Lookahead: []glyph.ID{61, gid("lookaheadGlyph", 62), 63}, Actions: act()}}}}
+	case "chain2":
+		cd := classdef.Table{10: 1, 11: 2}
+		lt, st = ctxT(6), &gtab.ChainedSeqContext2{Cov: covTable([]glyph.ID{10}), Backtrack: cd, Input: classdef.Table{10: 1, 12: 2}, Lookahead: classdef.Table{13: 1},
+			Rules: [][]*gtab.ChainedClassSeqRule{nil, {{Backtrack: []uint16{1, u("backtrackClass", 2), 1}, Input: []uint16{1, u("inputClass", 2), 1},
+				Lookahead: []uint16{1, u("lookaheadClass", 1), 1}, Actions: act()}}}}
+	case "chain3":
+		lt, st = ctxT(6), &gtab.ChainedSeqContext3{Backtrack: []coverage.Set{covSet([]glyph.ID{9})}, Input: []coverage.Set{covSet([]glyph.ID{10})},
+			Lookahead: []coverage.Set{covSet([]glyph.ID{11})}, Actions: act()}
+	case "gpos1_1":
+		lt, st = 1, &gtab.Gpos1_1{Cov: g3, Adjust: vrec("")}
+	case "gpos1_2":
+		lt, st = 1, &gtab.Gpos1_2{Cov: g3, Adjust: []*gtab.GposValueRecord{fullVR(1), vrec(""), fullVR(2)}}
+	case "gpos2_1":
+		l := gtab.Gpos2_1{}
+		l[glyph.Pair{Left: 10, Right: 20}] = &gtab.PairAdjust{First: fullVR(1), Second: fullVR(2)}
+		l[glyph.Pair{Left: 13, Right: gid("secondGlyph", 21)}] = &gtab.PairAdjust{First: vrec("v1."), Second: vrec("v2.")}
+		l[glyph.Pair{Left: 16, Right: 22}] = &gtab.PairAdjust{First: fullVR(3), Second: fullVR(4)}
+		lt, st = 2, l
+	case "gpos2_2":
+		row := func(i int) []*gtab.PairAdjust {
+			return []*gtab.PairAdjust{{First: fullVR(i), Second: fullVR(i + 1)}, {First: fullVR(i + 2), Second: fullVR(i + 3)}}
+		}
+		rows := [][]*gtab.PairAdjust{row(1), row(5), row(9)}
+		rows[1][1] = &gtab.PairAdjust{First: vrec("v1."), Second: vrec("v2.")}
+		lt, st = 2, &gtab.Gpos2_2{Cov: covSet([]glyph.ID{10, 13, 16}), Class1: classdef.Table{13: 1, 16: 2}, Class2: classdef.Table{20: 1}, Adjust: rows}
+	case "gpos3_1":
+		lt, st = 3, &gtab.Gpos3_1{Cov: g3, Records: []gtab.EntryExitRecord{{Entry: anch(true, 1), Exit: anch(true, 2)},
+			{Entry: anchor.Table{X: fu("entryX", 31), Y: fu("entryY", -32)}, Exit: anchor.Table{X: fu("exitX", 33), Y: fu("exitY", -34)}},
+			{Entry: anch(true, 3), Exit: anch(true, 4)}}}
+	case "gpos4_1", "gpos6_1":
+		marks := []markarray.Record{{Class: 0, Table: anch(true, 1)},
+			{Class: uint16(lv("markClass", 1)), Table: anchor.Table{X: fu("markX", 41), Y: fu("markY", -42)}}, {Class: 1, Table: anch(true, 2)}}
+		if sh.Field != "markClass" && sh.Oth == 0 {
+			marks[1].Class = 1 // the class is not swept here; keep both classes in use
+		}
+		arr := [][]anchor.Table{{anch(true, 3), anch(true, 4)}, {anch(true, 5), {X: fu("baseX", 51), Y: fu("baseY", -52)}}, {anch(true, 6), anch(true, 7)}}
+		bases := covTable([]glyph.ID{20, 23, 26})
+		if sh.T == "gpos4_1" {
+			lt, st = 4, &gtab.Gpos4_1{MarkCov: g3, BaseCov: bases, MarkArray: marks, BaseArray: arr}
+		} else {
+			lt, st = 6, &gtab.Gpos6_1{Mark1Cov: g3, Mark2Cov: bases, Mark1Array: marks, Mark2Array: arr}
+		}
+	default:
+		return 0, nil, fmt.Errorf("no leaf builder for format %s", sh.T)
+	}
+	if !used && sh.Field != "lookupFlag" && sh.Field != "markFilteringSet" {
+		return 0, nil, fmt.Errorf("format %s has no leaf %q", sh.T, sh.Field)
+	}
+	return lt, st, nil
 }
